@@ -10,9 +10,11 @@ import (
 	"encoding/base64"
 	"encoding/json"
 	"fmt"
+	"math"
 	"math/big"
 	"net/http"
 	"path/filepath"
+	"strconv"
 	"strings"
 	"testing"
 	"time"
@@ -646,6 +648,24 @@ type httpResp struct {
 	NoStore bool
 	NoCache bool
 	Private bool
+	Public  bool
+	// Split: every Cache-Control directive is sent on a header line of its own (equivalent to one comma separated list,
+	// RFC 7230, section 3.2.2)
+	Split bool
+	// LastModified: "" or "-100h" (what a cache may use for a heuristic lifetime when the response names none itself)
+	LastModified string
+}
+
+// lines returns the Cache-Control directives as separate header lines, if the response is sent that way.
+func (h httpResp) lines(now time.Time) http.Header {
+	all := h.headers(now)
+
+	cc, ok := all["Cache-Control"]
+	if !h.Split || !ok {
+		return nil
+	}
+
+	return http.Header{"Cache-Control": strings.Split(cc, ", ")}
 }
 
 func (h httpResp) headers(now time.Time) map[string]string {
@@ -672,6 +692,11 @@ func (h httpResp) headers(now time.Time) map[string]string {
 		cc = append(cc, "private")
 	}
 
+	if h.Public {
+		// (first: a directive which says nothing about lifetimes in front of those which do)
+		cc = append([]string{"public"}, cc...)
+	}
+
 	if len(cc) != 0 {
 		out["Cache-Control"] = strings.Join(cc, ", ")
 	}
@@ -694,6 +719,10 @@ func (h httpResp) headers(now time.Time) map[string]string {
 
 	if h.Age != "" {
 		out["Age"] = h.Age
+	}
+
+	if h.LastModified != "" {
+		out["Last-Modified"] = now.Add(-100 * time.Hour).UTC().Format(http.TimeFormat)
 	}
 
 	return out
@@ -734,10 +763,13 @@ func (h httpResp) freshness() (remaining time.Duration, explicit bool, storable 
 	}
 
 	if h.Age != "" {
-		var s int
-		fmt.Sscan(h.Age, &s)
+		// (delta-seconds have no upper bound; a value beyond what a duration holds is just very old)
+		d := time.Duration(math.MaxInt64)
+		if s, err := strconv.ParseInt(h.Age, 10, 64); err == nil && s < math.MaxInt64/int64(time.Second) {
+			d = time.Duration(s) * time.Second
+		}
 
-		if d := time.Duration(s) * time.Second; d > age {
+		if d > age {
 			age = d
 		}
 	}
@@ -777,7 +809,16 @@ func httpCacheCase(h httpResp, defaultTTL string, cch any) (sets []vkit.SetRec, 
 
 	now := time.Now()
 	body := vkit.JWKSJSON([]vkit.JWK{{Kid: "k1", Alg: "ES256", Use: "sig", Pub: &sigKey.PublicKey}})
-	remote.Set(func(vkit.Call) vkit.Reply { return vkit.Reply{Status: 200, Header: h.headers(now), Body: body} })
+	remote.Set(func(vkit.Call) vkit.Reply {
+		hdrs := h.headers(now)
+
+		lines := h.lines(now)
+		if lines != nil {
+			delete(hdrs, "Cache-Control")
+		}
+
+		return vkit.Reply{Status: 200, Header: hdrs, Lines: lines, Body: body}
+	})
 
 	tok, _ := vkit.MintJWT(map[string]any{"alg": "ES256", "kid": "k1"}, map[string]any{"iss": issuer, "sub": "u1", "exp": now.Unix() + 3600}, sigKey)
 
@@ -812,15 +853,32 @@ func TestHTTPResponseCaching(t *testing.T) {
 			// ("0" and "-1": not a date at all, which means "already expired", RFC 7234, section 5.3)
 			Expires: rapid.SampledFrom([]string{"", "", "past", "+30", "0", "-1"}).Draw(t, "expires"),
 			Date:    rapid.SampledFrom([]string{"", "now", "-20"}).Draw(t, "date"),
-			Age:     rapid.SampledFrom([]string{"", "", "10"}).Draw(t, "age"),
+			Age:     rapid.SampledFrom([]string{"", "", "10", "30", "60", "18446744074"}).Draw(t, "age"),
 			NoStore: rapid.IntRange(0, 7).Draw(t, "noStore") == 0,
 			NoCache: rapid.IntRange(0, 7).Draw(t, "noCache") == 0,
 			Private: rapid.IntRange(0, 5).Draw(t, "private") == 0,
+			Public:  rapid.IntRange(0, 5).Draw(t, "public") == 0,
+			Split:   rapid.IntRange(0, 3).Draw(t, "directivesOnSeparateLines") == 0,
+		}
+
+		if rapid.IntRange(0, 4).Draw(t, "lastModified") == 0 {
+			h.LastModified = "-100h"
 		}
 		defaultTTL := rapid.SampledFrom([]string{"", "15s"}).Draw(t, "defaultTTL")
 		useMemory := rapid.Bool().Draw(t, "realMemoryCache")
 
 		remaining, explicit, storable := h.freshness()
+
+		if !explicit && storable && h.LastModified != "" {
+			// no lifetime of its own, but a modification time: a cache may work one out (RFC 7234, section 4.2.2); how long
+			// is not dictated
+			vkit.S.Label("http-cache:dont_care_heuristic_lifetime")
+
+			return
+		}
+
+		vkit.S.LabelIf(h.Split && (h.MaxAge != "" || h.NoStore || h.NoCache), "http-cache:directives_on_separate_lines")
+		vkit.S.LabelIf(h.LastModified != "", "http-cache:explicit_lifetime_and_last_modified")
 
 		if exclNonPositive && storable && explicit && remaining <= 0 {
 			vkit.S.Exclude(kfHTTPNonPositive)
